@@ -1,14 +1,15 @@
 """C11 Indications are confirmed one at a time and never lost (safety half)."""
 from .lib.match import *
+from .lib.paths import explore
 
-SELECT = r'^bluetoe::(notification_queue|details::notification_queue_impl|details::notification_queue_impl_base)::|^bluetoe::server::handle_value_confirmation$|^bluetoe::server::indication_confirmed$'
+SELECT = r'^bluetoe::(notification_queue|details::notification_queue_impl|details::notification_queue_impl_base)::|^bluetoe::server::handle_value_confirmation$|^bluetoe::server::indication_confirmed$|^bluetoe::server::l2cap_output$'
 UNITS = lambda u: u in ('w_inst_att',) or u.startswith('t_notification_queue') or u.startswith('t_att_indication')
 Q = 'bluetoe::details::notification_queue_impl::'
 NONE = 'no_outstanding_indicaton'
 META = {
     'level': 'guarded-by and who-writes rules on both notification queue implementations (general and single-entry) and the server: an indication is handed out only on the edge '
              'outstanding_confirmation == no_outstanding_indicaton and the outstanding index is stored on that very path; the outstanding index is reset only by a confirmation or a clear; '
-             'the confirmation callback needs in_size == 1. Decides the "at most one outstanding" half for all interleavings; eventual delivery (liveness) is not decided.',
+             'the confirmation callback needs in_size == 1. server::l2cap_output either transmits a dequeued indication or releases it again (path enumeration), and releases nothing else. Decides the "at most one outstanding" half and the "an untransmitted indication does not block the following ones" clause for all paths; eventual delivery under arbitrary schedules (liveness) is not decided.',
     'technique': 'static guarded-by / who-writes rules over clang AST/CFG facts',
 }
 
@@ -24,7 +25,72 @@ def pair_first(r):
     return None, None
 
 
+KINDS = {'empty', 'notification', 'indication'}
+
+
+def output_paths(chk, facts):
+    """server::l2cap_output: on every path the dequeued entry is either transmitted (opcode stored to *output) or, if it can be an indication,
+    given back with indication_confirmed(); indication_confirmed() is reached only with an untransmitted indication"""
+    for fn in variants(facts, 'bluetoe::server::l2cap_output', chk):
+        pend = None
+        for n in fn.body.walk():
+            if n.k == 'VarDecl' and n.c and any(c.cn == 'dequeue_indication_or_confirmation' for c in n.calls()):
+                pend = n.n
+        chk.require(pend is not None, 'l2cap_output: local holding dequeue_indication_or_confirmation() not found')
+        if pend is None:
+            continue
+
+        def kind_atom(l, op, r):
+            for a, b in ((l, r), (r, l)):
+                if isinstance(a, int) or isinstance(b, int):
+                    continue
+                a, b = strip_casts(a), strip_casts(b)
+                if a.k in ('MemberExpr', 'CXXDependentScopeMemberExpr') and a.n == 'first' and a.c and is_name(a.c[0], pend) and b.n in KINDS:
+                    return b.n
+            return None
+
+        def on_node(ts, node):
+            sent, released, kinds = ts
+            for tgt, op, val, st in stores(node):
+                t = strip_casts(tgt)
+                if st is node and t.k == 'UnaryOperator' and t.o == '*' and is_name(t.c[0], fn.params[0]['n']):
+                    sent = True
+            if node.d.get('call') and node.cn == 'indication_confirmed':
+                released = released + 1 if not sent else 99
+            return (sent, released, kinds)
+
+        def on_edge(ts, cond, outcome, ats):
+            sent, released, kinds = ts
+            kinds = set(kinds)
+            for l, op, r in ats:
+                k = kind_atom(l, op, r)
+                if k is not None and op in ('==', '!='):
+                    kinds = kinds & {k} if op == '==' else kinds - {k}
+            return (sent, released, frozenset(kinds))
+        res = explore(fn, (False, 0, frozenset(KINDS)), on_node, on_edge)
+        n_paths = 0
+        bad = {}
+        for (sent, released, kinds), tr in res:
+            if not kinds:
+                continue
+            n_paths += 1
+            where = ' / '.join('%s%s' % ('' if o else '!', t[:40]) for l, t, o in tr[-3:])
+            if released and (sent or kinds != {'indication'} or released > 1):
+                bad.setdefault('indication_confirmed() is reached with a dequeued %s%s: an indication that really is outstanding at the client is forgotten and the next one is sent before its confirmation'
+                               % ('/'.join(sorted(kinds)), ' that was transmitted' if sent else ''), where)
+            if not sent and not released and 'indication' in kinds:
+                bad.setdefault('a dequeued indication that is not transmitted stays recorded as outstanding: no confirmation can arrive for it, every later indication of the connection is held back', where)
+        chk.require(n_paths >= 3, 'l2cap_output: only %d feasible paths found' % n_paths)
+        for why, where in bad.items():
+            chk.instance('unsent-indication-released', fn, 'l2cap_output path [%s]' % where, False, why, key='l2cap_output:' + why[:40])
+        if not bad:
+            chk.instance('unsent-indication-released', fn, 'l2cap_output: %d feasible paths' % n_paths, True, key='l2cap_output')
+
+
 def run(chk, facts, tier):
+    chk.rule('unsent-indication-released', 'server::l2cap_output: a dequeued indication is either transmitted or released again with indication_confirmed(); indication_confirmed() is called there only for an '
+             'indication that was not transmitted (never for a notification, never after the PDU was produced)', floor=1)
+    output_paths(chk, facts)
     chk.rule('indication-needs-no-outstanding', 'every return of {indication, ..} in a queue implementation is control dependent on outstanding_confirmation == no_outstanding_indicaton, '
              'stores outstanding_confirmation on that path and removes the indication bit', floor=2)
     chk.rule('outstanding-writers', 'notification_queue::outstanding_confirmation_index_ is reset only by indication_confirmed(), clear_indications_and_confirmations() and the constructor, and is passed by reference only to impl::dequeue', floor=3)
